@@ -554,6 +554,16 @@ def r6(ctx):
                     under_follow = True
                 if t[0] == "match" and "current_follow_symlinks" in render(t[1]) and render_pat(t[2]) == "true":
                     under_follow = True
+            if not under_follow:
+                # the same conditions established by a guard clause (`if !file_type.is_symlink() { return .. }` in an extracted helper)
+                try:
+                    pos_, _neg = guard_atoms(with_exits(gs))
+                except Exception:
+                    pos_ = []
+                for a_ in pos_:
+                    pa_ = peel(a_, methods=False)
+                    if "current_follow_symlinks" in render(pa_) or (pa_["k"] == "MCall" and pa_["m"] == "is_symlink" and "FileType" in str(pa_["recv"].get("ty", ""))):
+                        under_follow = True
             # regexp root expansion lists candidate root directories before the walk proper
             if fn == LSR and any(t[0] == "if" and "options.regexp" in render(t[1]) for t in gs):
                 under_follow = True
